@@ -42,6 +42,9 @@ def ds_net(rng):
         at = rng.choice([free[0], b[0]])
         vm = float(net.gen.vm_pu[net.gen.bus == at].iloc[0]) if at != b[0] else float(net.ext_grid.vm_pu.iloc[0])
         pp.create_gen(net, at, 12., vm_pu=vm, slack_weight=w())
+    if rng.random() < 0.3:
+        # a reference generator (slack=True) that does not participate (weight 0) but has a dispatch, at the ext_grid bus
+        pp.create_gen(net, b[0], rng.choice([15., 30.]), vm_pu=float(net.ext_grid.vm_pu.iloc[0]), slack=True, slack_weight=0.)
     rest = free[ng:]
     for bb in rest:
         if rng.random() < 0.8:
@@ -49,8 +52,9 @@ def ds_net(rng):
         if rng.random() < 0.3:
             pp.create_sgen(net, bb, rng.choice([5., 15.]), 1., scaling=rng.choice([1., 0.5]))
     nxw = rng.choice([0, 0, 1, 1, 2])
+    same_bus = rng.random() < 0.5          # two xwards at one bus
     for k in range(min(nxw, len(rest))):
-        pp.create_xward(net, rest[k], ps_mw=rng.choice([5., 8.]), qs_mvar=1., pz_mw=rng.choice([0., 2.]), qz_mvar=0.5, r_ohm=0.,
+        pp.create_xward(net, rest[0 if same_bus else k], ps_mw=rng.choice([5., 8.]), qs_mvar=1., pz_mw=rng.choice([0., 2.]), qz_mvar=0.5, r_ohm=0.,
                         x_ohm=5., vm_pu=1.0, slack_weight=rng.choice([0., 1., 2.]))
     return net
 
